@@ -47,6 +47,9 @@ func (x *Exec) call(fr *Frame, st *State, c *ssa.CallCommon, site ssa.Instructio
 		}
 		x.oblig("nil", pos, fmt.Sprintf("method %s called on nil interface", c.Method.Name()), st.PC, Neq(recv.S[0], IntLit(0)))
 		key := c.Method.FullName()
+		if err := x.callSite(fr, st, recvTypeName(c.Value.Type())+c.Method.Name(), nil, c.Method.Type().(*types.Signature), x.cs.Funcs[key], append([]Val{recv}, args...), pos); err != nil {
+			return Val{}, err
+		}
 		if r, done, err := x.nativeInvoke(fr, st, key, c, recv, args, pos); done || err != nil {
 			return r, err
 		}
@@ -65,6 +68,15 @@ func (x *Exec) call(fr *Frame, st *State, c *ssa.CallCommon, site ssa.Instructio
 	args, err := x.args(fr, st, c)
 	if err != nil {
 		return Val{}, err
+	}
+	if callee := c.StaticCallee(); callee != nil && callee.Parent() == nil {
+		what := callee.Name()
+		if r := callee.Signature.Recv(); r != nil {
+			what = recvTypeName(r.Type()) + what
+		}
+		if err := x.callSite(fr, st, what, callee, callee.Signature, x.cs.Funcs[callee.String()], args, pos); err != nil {
+			return Val{}, err
+		}
 	}
 	if callee := c.StaticCallee(); callee != nil {
 		// closure literal called directly: MakeClosure value carries bindings
@@ -132,6 +144,70 @@ func isLogging(fn *ssa.Function) bool {
 	return false
 }
 
+// recvTypeName: "Store." for queue.Store, "packetIDLimiter." for *packetIDLimiter.
+func recvTypeName(t types.Type) string {
+	t = types.Unalias(t)
+	if p, ok := t.(*types.Pointer); ok {
+		t = types.Unalias(p.Elem())
+	}
+	if n, ok := t.(*types.Named); ok {
+		return n.Obj().Name() + "."
+	}
+	return ""
+}
+
+// callSite numbers the call ("Name#k"), checks the caller's call-site assertions for it
+// ("call Name#k assert e": the caller's view of what it hands to the callee, evaluated just before the call with the
+// callee's parameter names in scope) and records the snapshot at(Name#k, e) = e just before the call.
+func (x *Exec) callSite(fr *Frame, st *State, what string, callee *ssa.Function, sig *types.Signature, fc *FuncContract, args []Val, pos token.Pos) error {
+	x.calls[what]++
+	tag := fmt.Sprintf("%s#%d", what, x.calls[what])
+	x.curTag = tag
+	top := x.topFC
+	if top == nil {
+		return nil
+	}
+	x.callSeen[tag] = true
+	cl := top.CallAssert[tag]
+	if len(cl) == 0 && len(top.CallWitness[tag]) == 0 {
+		return nil
+	}
+	var names []string
+	if fc != nil {
+		names = paramNames(fc, callee, sig)
+	} else {
+		names = paramNames(&FuncContract{}, callee, sig)
+	}
+	mkEnv := func() *Env {
+		cenv := x.envFor(fr, st, fr.entry)
+		if len(names) == len(args) {
+			for i, n := range names {
+				if _, err := cenv.ident(n); err != nil {
+					cenv.names[n] = args[i]
+				}
+			}
+		}
+		return cenv
+	}
+	for _, w := range top.CallWitness[tag] {
+		v, err := mkEnv().Eval(w.E)
+		if err != nil || len(v.S) != 1 {
+			return engineErr("%s: call %s witness %s: %v", x.topName, tag, w.Name, err)
+		}
+		c := x.u.Declare("wit$"+w.Name, v.S[0].So)
+		x.u.Assume(Eq(c, v.S[0]))
+	}
+	for ci, c := range cl {
+		cenv := mkEnv()
+		g, err := cenv.Bool(c.E)
+		if err != nil {
+			return engineErr("%s: call %s assert %q: %v", x.topName, tag, c.Text, err)
+		}
+		x.u.AddObligation(x.topName, fmt.Sprintf("assert@%s.c%d", tag, ci+1), pos, x.lab(c.Labels), c.Text, st.PC, g)
+	}
+	return nil
+}
+
 // opaqueCall: nothing is known about the callee: it may change the whole heap.
 func (x *Exec) opaqueCall(fr *Frame, st *State, key string, rt types.Type, args []Val, pos token.Pos) (Val, error) {
 	u := x.u
@@ -157,7 +233,13 @@ func (x *Exec) opaqueCall(fr *Frame, st *State, key string, rt types.Type, args 
 }
 
 func (x *Exec) havocAll(st *State) {
-	st.Heap = map[string]Term{}
+	keep := map[string]Term{}
+	for k, v := range st.Heap {
+		if strings.HasPrefix(k, "GF$") {
+			keep[k] = v
+		}
+	}
+	st.Heap = keep
 	st.Ghost = map[string]Term{}
 	st.Epoch = x.nextEpoch()
 	na := x.u.Fresh("alloc", SInt)
@@ -331,8 +413,7 @@ func (x *Exec) callContract(fr *Frame, st *State, fc *FuncContract, callee *ssa.
 			}
 		}
 	}
-	x.calls[what]++
-	tag := fmt.Sprintf("%s#%d", what, x.calls[what])
+	tag := x.curTag
 	if fc.Trusted {
 		u.Trust("trusted contract: " + fc.Key)
 	} else {
